@@ -149,6 +149,12 @@ func CrashPart(run *report.Run, st *Setup, cases, pointsPerCase int, randomKills
 				return false
 			}
 			run.Count("followup_builds", 1)
+			// the remains of the crash must not mislead the follow-up build into publishing
+			// a result whose blobs were never stored
+			if bad := auditAtRest(cache); bad != "" {
+				keep = !run.Violation("followup-after-crash cache-inconsistent "+strings.Fields(bad)[0]+" at="+at, fmt.Sprintf("after %s and a follow-up build that exited %d the cache at rest is inconsistent: %s", what, obs.Res.Exit, bad), mkReplay(i, env, obs)) || keep
+				return false
+			}
 			if cr.Signaled {
 				run.Nontrivial(fmt.Sprintf("%s|w%d|%s|%d", s.Shape(), workers, at, len(obs.Started)))
 			}
@@ -179,4 +185,23 @@ func CrashPart(run *report.Run, st *Setup, cases, pointsPerCase int, randomKills
 		}
 		run.Sample(map[string]any{"crash_case": i, "shape": s.Shape(), "points": total, "first_points": points[:min(12, len(points))], "history": env.Log})
 	})
+}
+
+// auditAtRest audits a cache directory; "" when clean, otherwise the kind and the first entry.
+func auditAtRest(cache string) string {
+	store, err := audit.LoadDir(cache)
+	if err != nil {
+		return ""
+	}
+	rep := audit.Audit(store)
+	switch {
+	case rep.Clean():
+		return ""
+	case len(rep.CasBad) > 0:
+		return "blob-content-mismatch " + rep.CasBad[0]
+	case len(rep.TargetBad) > 0:
+		return "target-result-undecodable " + rep.TargetBad[0]
+	default:
+		return "dangling-reference " + rep.Dangling[0]
+	}
 }
